@@ -12,7 +12,8 @@ open Mb
 structure CaseIn where
   mc : List Machine
   ms : List Machine
-  trace : List TraceLine
+  /-- the raw input trace, with all direction tokens -/
+  trace : List RawLine
   delay : Nat
   deriving Repr, Inhabited
 
@@ -76,7 +77,7 @@ variable {σ : Type} (ρ : Oracle σ)
 
 /-- run the model for one run of a case -/
 def modelRun (budget : Nat) (c : CaseIn) (r : RunIn) (orc : σ) : SimOut σ × Int :=
-  let sq := parseTrace c.trace c.delay
+  let sq := parseTraceRaw c.trace c.delay
   let t0 := sq.firstTime.getD 0
   (simAdvanced ρ budget c.mc c.ms sq (r.effArgs c.delay) orc, t0)
 
